@@ -1,0 +1,7 @@
+//go:build !verif
+
+package parser
+
+// Verification hooks are compiled out without the verif build tag.
+
+func vhScan() {}
